@@ -119,6 +119,9 @@ func (c *CheckCtx) runJobs(jobs []*Job, keep func(o *Obligation) bool) {
 		for k := range tr.havocked {
 			c.trusted["unconstrained call: "+k] = true
 		}
+		for k := range tr.usedAssumed {
+			c.trusted["assumed (not proved) contract clause: "+k] = true
+		}
 		for k := range tr.usedContracts {
 			c.trusted["callee contract (checked on the callee when it is under contract): "+k] = true
 		}
@@ -140,6 +143,9 @@ func (c *CheckCtx) runJobs(jobs []*Job, keep func(o *Obligation) bool) {
 	}
 	wg.Wait()
 	for _, tr := range trs {
+		if tr.coverResult == "unsat" {
+			c.machineryErrors = append(c.machineryErrors, "vacuity: contradictory assumptions in the VC of "+fnName(tr.root))
+		}
 		c.trs = append(c.trs, tr)
 		for _, o := range tr.obls {
 			if o.Cand != nil || o.Result == "" {
